@@ -49,7 +49,7 @@ def in_d8(cfg):
 
 def draw_config(draw, ctx, nps, n_jobs_choices=(1,)):
     for _ in range(20):
-        cfg = draw(gen.config_st(nps=nps, arm_kinds=("int", "str"), max_arms=4, with_binarizer=False, scale_ok=True,
+        cfg = draw(gen.config_st(nps=nps, arm_kinds=("int", "str"), max_arms=4, with_binarizer=True, scale_ok=True,
                                  defaults_ok=True, tree_parallel_ok=True, n_jobs_choices=n_jobs_choices,
                                  metrics=gen.MANY_METRICS))
         if in_d7(cfg) and D7 in ctx.active:
